@@ -22,7 +22,7 @@ def describe(tier):
         "image decodes (independent decoder) to the value tree with every leaf replaced.",
         bounds=dict(types_cffi=len(types_for(tier, "cffi")), types_sanitizer=len(types_for(tier, "asan")), values=["ramp", "minimal"]),
         assumptions=["calls through a null reference are not well-formed and are not made", "objects start on an 8-byte boundary of a 16-byte aligned image"],
-        must_fire=["set", "asan-call", "asan-set"],
+        must_fire=["set", "asan-call", "asan-set", "grow-between-calls"],
     )
 
 
@@ -82,6 +82,11 @@ def route_cffi(types, res, seed):
                 cur = xt.get_path(mv, c["vpath"])
                 for val in set_values(c["lt"], cur, n):
                     n += 1
+                    if n % 4 == 2:
+                        # the buffer grows (its storage is replaced) between two calls of the same kernels: anything a
+                        # call remembers about the old storage must not survive
+                        buf.grow(8)
+                        res.events["grow-between-calls"] += 1
                     res.transitions += 1
                     res.events["set"] += 1
                     common.breadcrumb("%s|%s|%s(%r, value=%r)" % (xt.show(t), vmode, c["kern"].c_name, kw, val))
